@@ -1290,7 +1290,10 @@ func (m *Manager) handleMessage(tm *TaskmanMessage) error {
 				mesosState == mesos.TASK_STARTING ||
 				mesosState == mesos.TASK_RUNNING ||
 				mesosState == mesos.TASK_KILLING ||
-				mesosState == mesos.TASK_UNKNOWN) {
+				mesosState == mesos.TASK_UNKNOWN) &&
+			m.GetTask(mesosStatus.TaskID.GetValue()) == nil {
+			// only leftovers of a previous life of the core are killed: a task we know about (it is in
+			// the roster) is ours, and reconciliation also happens on a mere reconnection to the master
 			killCall := calls.Kill(mesosStatus.TaskID.GetValue(), mesosStatus.AgentID.GetValue())
 			calls.CallNoData(context.TODO(), m.schedulerState.cli, killCall)
 		} else {
